@@ -14,7 +14,7 @@ from mi_common import est_line, gen_pair, impl_mi, kernel_key, tol
 from vp_common import Atom, Ctx, line, run_driver
 
 PROP = 'C03'
-RULE = ('C01 pair families with correction on; a pipeline family (small integer-coded frames, label at every column position, '
+RULE = ('C01 pair families with correction on, plus BIJECTION pairs (feature and target in one-to-one correspondence row by row, not equal); numba_mi called on int64 / uint32 / uint64 / int16 vectors for every tenth pair and every bijection pair; a pipeline family (small integer-coded frames, label at every column position, '
         'target-only and pairwise scope, real get_combinations_from_columns + get_importances_estimate_pairwise: every pair containing '
         'the label must carry the corrected score of the FEATURE against the LABEL); plus the planted-signal family (binary target, 15% flips, independent noise of '
         'cardinality 2,4,16,256,n/4,n) at n in {4000,16000} for the measured ranking corollary. Non-trivial = both sides '
@@ -54,16 +54,20 @@ def evaluate(ctx: Ctx, cases, oracle_only=False):
         elif Y != X and len(set(Y)) == n and abs(a) > t:
             ctx.oracle_fail('all-distinct', f'{short}: all-distinct feature scores {a!r}', case)
         # name -> flag: only MI-numba-randomized switches the correction on
-        if k % 25 == 0 and n <= 500:
-            vf = np.asarray(Y, dtype=np.int64).reshape(-1, 1)
-            vs = np.asarray(X, dtype=np.int64)
+        if (k % 10 == 0 or fam == 'bijection') and n <= 500:
+            # the vectors as a library caller may hold them: numpy's default int64, unsigned or narrow integer dtypes
+            fits16 = max(max(Y), max(X)) < 2 ** 15
+            dt = [np.int64, np.int64, np.uint32, np.int16 if fits16 else np.int64, np.uint64][k % 5]
+            ctx.count('numba_mi-dtype:' + np.dtype(dt).name)
+            vf = np.asarray(Y, dtype=dt).reshape(-1, 1)
+            vs = np.asarray(X, dtype=dt)
             plain = impl_mi(Y, X, 1.0, False)
             for name in NAMES:
                 got = float(ie.numba_mi(vf, vs, name, 1.0))
                 want = a if name == 'MI-numba-randomized' else plain
                 ctx.count('flag-checks')
                 if abs(got - want) > 1e-7:
-                    ctx.oracle_fail('flag:' + name, f'{short}: numba_mi(heuristic={name!r}) = {got!r}, expected the '
+                    ctx.oracle_fail('flag:' + name, f'{short}: numba_mi(heuristic={name!r}) on {np.dtype(dt).name} vectors = {got!r}, expected the '
                                     + ('corrected' if name == 'MI-numba-randomized' else 'uncorrected') + f' score {want!r}', {**case, 'name': name})
         if fam in ('planted', 'zipf'):
             ctx.sample({'family': fam, 'n': n, 'Y': Y[:12], 'X': X[:12], 'impl': a, 'spec': spec})
@@ -160,6 +164,21 @@ def planted(ctx: Ctx, seeds, n):
     return worst_c, worst_u
 
 
+def gen_bijection(rng):
+    """feature and target in one-to-one correspondence row by row without being equal (two id columns, a recoded copy)"""
+    n = rng.choice([2, 3, 4, 8, 30, 120, 400])
+    k = rng.choice([n, n, max(2, n // 3), 5, 2])
+    X = [rng.randrange(k) for _ in range(n)] if k < n else rng.sample(range(n), n)
+    codes = rng.sample(range(0, rng.choice([k + 3, 1000, 700000])), len(set(X))) if rng.random() < 0.7 else None
+    m = dict(zip(sorted(set(X)), codes)) if codes else {v: v + 1 for v in set(X)}
+    Y = [m[x] for x in X]
+    if Y == X:
+        Y = [y + 1 for y in Y]
+    if rng.random() < 0.3:
+        X = [x + rng.choice([0, 100000]) for x in X]
+    return 'bijection', Y, X
+
+
 def corpus():
     return [('corpus', [0, 1, 0, 2], [1, 1, 0, 0]), ('corpus', [0, 1], [1, 0]), ('corpus', [4, 4, 4, 4], [0, 1, 0, 1]),
             ('corpus', [0, 1, 2, 3, 4, 5], [0, 0, 1, 1, 2, 2]), ('corpus', [2, 0, 2], [2, 0, 2])]
@@ -171,7 +190,7 @@ PIPE_CORPUS = [{'cols': [['label', [0, 0, 0, 1]], ['f', [0, 0, 1, 0]]], 'label':
 
 def run(ctx: Ctx):
     n = 5000 if ctx.thorough() else 700
-    evaluate(ctx, corpus() + [gen_pair(ctx.rng, ctx.thorough(), maxn=3000) for _ in range(n)])
+    evaluate(ctx, corpus() + [gen_pair(ctx.rng, ctx.thorough(), maxn=3000) for _ in range(n)] + [gen_bijection(ctx.rng) for _ in range(n // 7)])
     evaluate_pipeline(ctx, PIPE_CORPUS + [gen_pipeline_case(ctx.rng) for _ in range(1500 if ctx.thorough() else 150)])
     seeds = range(ctx.seed * 100000, ctx.seed * 100000 + (400 if ctx.thorough() else 12))
     for nn in ((4000, 16000) if ctx.thorough() else (4000,)):
@@ -182,7 +201,7 @@ def run(ctx: Ctx):
 def search(ctx: Ctx):
     sub = Ctx(ctx.prop, ctx.tier)
     sub.rng.seed(f'search:{ctx.seed}')
-    evaluate(sub, [gen_pair(sub.rng, False, maxn=400) for _ in range(3000)], oracle_only=True)
+    evaluate(sub, [gen_pair(sub.rng, False, maxn=400) for _ in range(3000)] + [gen_bijection(sub.rng) for _ in range(500)], oracle_only=True)
     evaluate_pipeline(sub, [gen_pipeline_case(sub.rng) for _ in range(800)], oracle_only=True)
     return sub.oracle_failures
 
